@@ -685,16 +685,17 @@ def fam_f1(names, acc, local):
 
 
 def fam_f2(names, acc, local):
-    """names x filenames x file shapes with (str "x", explicit boundary); the second
-    (bytes CRLF-dashes, generated boundary) variant on the whole square in thorough, on
-    names<=2 in quick"""
+    """names x filenames x file shapes with (str "x", explicit boundary) on the whole
+    square; the second (bytes CRLF-dashes, generated boundary) variant where the name
+    (thorough: the name or the filename) is no longer than 2 - the value is orthogonal to
+    the header text"""
     fns = _CFG["fns"]
-    second = _CFG["thorough"]
+    thorough = _CFG["thorough"]
     for n in names:
         for f in fns:
             for mk in FILE_SHAPES:
                 run_case(_one([mk(n, f, V_X)], boundary=EXPLICIT), acc, local)
-                if second or len(n) <= 2:
+                if len(n) <= 2 or (thorough and len(f) <= 2):
                     run_case(_one([mk(n, f, V_CRLFDASH_B)], boundary=None), acc, local)
     if names and names[0] == "":
         for f in fns:
@@ -999,7 +1000,8 @@ def run(ctx):
     c = acc.counters
     expect = {
         "F1": len(names3) * len(NOFILE_SHAPES) * (len(MAIN_VALUES) * 2 + (len(MAIN_VALUES) if thorough else 2) * 2),
-        "F2": (len(names3) + (len(names3) if thorough else len(names2))) * len(_CFG["fns"]) * len(FILE_SHAPES),
+        # first variant on the square, second where len(name)<=2 (thorough: or len(filename)<=2)
+        "F2": (len(names3) * len(_CFG["fns"]) + sum(1 for n in names3 for f in _CFG["fns"] if len(n) <= 2 or (thorough and len(f) <= 2))) * len(FILE_SHAPES),
     }
     if not thorough:
         expect["F2b"] = (len(names3) - len(names2)) * len(short) * len(FILE_SHAPES) * 2
@@ -1022,7 +1024,7 @@ def run(ctx):
         "distinct_per_family": {k[9:]: v for k, v in c.items() if k.startswith("distinct:")},
         "distinct_crosscheck_global_set_F0_F1_F3_F5": len(acc.distinct) if not thorough else "quick tier only",
         "rule": "exhaustive products: F1 names(len<=3 over %d symbols)=%d x %d no-filename shapes x %d values x {explicit,generated} (+ request_encode_body/request routes); "
-                "F2 names(<=3) x filenames(<=%d)=%d x %d file shapes x {(str x, explicit)} + {(bytes CRLF--, generated)} (the latter on names<=2 in quick; quick adds F2b names(<=1) x filenames(len 3)); F3a %d single-byte/code-point and near-boundary values x %d frames x all shapes x %d boundaries; "
+                "F2 names(<=3) x filenames(<=%d)=%d x %d file shapes x {(str x, explicit)} + {(bytes CRLF--, generated)} (the latter where the name - thorough: name or filename - has len<=2; quick adds F2b names(<=1) x filenames(len 3)); F3a %d single-byte/code-point and near-boundary values x %d frames x all shapes x %d boundaries; "
                 "F3b names(<=1) x filenames(None|<=1) x all shapes x %d values x %d hostile boundaries; F4 all ordered pairs over %d single fields (names<=2 x %d variants), list + dict; "
                 "F5 all lists over behaviour classes computed by the run %r, list/tuple/dict, 3 routes. "
                 "A case is non-trivial when it has >1 field, or a name/filename with a symbol other than 'a', or a value that is not plain ASCII text; "
